@@ -705,7 +705,7 @@ func runC06(c *mon.Ctx) {
 		{"soup", func() string { return gen.PathSoup(r) }},
 	}
 
-	nPath := c.Share(c.Scale(1_600_000, 20_000_000))
+	nPath := c.Share(c.Scale(1_600_000, 100_000_000))
 	pool := make([]string, 0, 2048)
 	c06RunChunked(c, "p", nPath, func(i int) c06Case {
 		g := gens[i%len(gens)]
@@ -728,7 +728,7 @@ func runC06(c *mon.Ctx) {
 	}
 
 	// ---- path/version pairs ------------------------------------------------------------------------
-	c06RunChunked(c, "c", c.Share(c.Scale(480_000, 4_000_000)), func(i int) c06Case {
+	c06RunChunked(c, "c", c.Share(c.Scale(480_000, 20_000_000)), func(i int) c06Case {
 		p := pool[r.IntN(len(pool))]
 		switch r.IntN(8) {
 		case 0:
@@ -742,7 +742,7 @@ func runC06(c *mon.Ctx) {
 		id := fmt.Sprintf("c%d", i)
 		return c06Case{id, mon.QS(p) + " " + mon.QS(vs), func(k c06Chunk) { c06Pair(c, k, id, p, vs) }}
 	})
-	c06RunChunked(c, "m", c.Share(c.Scale(160_000, 1_000_000)), func(i int) c06Case {
+	c06RunChunked(c, "m", c.Share(c.Scale(160_000, 5_000_000)), func(i int) c06Case {
 		num := gen.Pick(r, []string{"0", "1", "2", "3", "10", gen.MajorNumber(r)})
 		pm := gen.Pick(r, []string{"", "/v", ".v", ".v"}) // "" or a prefix to complete
 		switch pm {
@@ -766,7 +766,7 @@ func runC06(c *mon.Ctx) {
 	})
 
 	// ---- MatchPrefixPatterns -----------------------------------------------------------------------
-	c06RunChunked(c, "g", c.Share(c.Scale(480_000, 4_000_000)), func(i int) c06Case {
+	c06RunChunked(c, "g", c.Share(c.Scale(480_000, 20_000_000)), func(i int) c06Case {
 		target := gen.GlobTarget(r)
 		if r.IntN(10) == 0 {
 			target = pool[r.IntN(len(pool))]
